@@ -32,4 +32,5 @@ def main(tier):
     chk.run("R-CYCLEPATH", DR.cyclepath, cx.repo, floor=2)
     chk.run("R-EDGEACC", DR.edgeacc, cx.repo, cx.schema, cx.sites, floor=3)
     chk.run("R-ALIASEDGE", DR.aliasedge, cx.repo, floor=2)
+    chk.run("R-ORDEREDGES", DR.orderedges, cx.repo, cx.schema, cx.sites, floor=2)
     return chk.finish()
